@@ -44,13 +44,14 @@
 (declare-fun tok_less (Iface Iface) Bool)
 
 ;; block ip
-; net.IP.IsUnspecified as an uninterpreted predicate of the address bytes (array, offset, length):
-; the driver only branches on it.
-; sig ip_unspec(bytes, int) bool
-(declare-fun ip_unspec ((Array (_ BitVec 64) (_ BitVec 8)) (_ BitVec 64) (_ BitVec 64)) Bool)
-; net.IP.String: the text of an address is a function of its bytes
-; sig ip_str(bytes, int) string
-(declare-fun ip_str ((Array (_ BitVec 64) (_ BitVec 8)) (_ BitVec 64) (_ BitVec 64)) Str)
+; net.IP.IsUnspecified / net.IP.String as uninterpreted functions of the address value (the slice
+; header: backing array identity, offset, length). Assumption: the bytes of an IP address are not
+; modified after the address has been created (IP values are immutable by convention), so the
+; functions do not depend on the byte memory. The driver only branches on / uses these as map keys.
+; sig ip_unspec(any) bool
+; sig ip_str(any) string
+(declare-fun ip_unspec (Slice) Bool)
+(declare-fun ip_str (Slice) Str)
 
 ;; block mm3
 ; Cassandra org.apache.cassandra.utils.MurmurHash.hash3_x64_128 (seed 0), first word.
